@@ -216,6 +216,9 @@ type C03Mut struct {
 	NewO    Scalars `json:"new_o"`
 	SetMap  bool    `json:"set_map,omitempty"`
 	MapVal  int64   `json:"map_val,omitempty"`
+	// NewFuncs, if set, are re-injected under the names f0, f1, ... (same arity, wider or
+	// other numeric parameter kinds): the same call sites then convert to other types.
+	NewFuncs []C03Func `json:"new_funcs,omitempty"`
 }
 
 type C03Case struct {
@@ -223,10 +226,20 @@ type C03Case struct {
 	Rule  *dsl.Rule `json:"rule"`
 	// Rule2, if present, runs on the same data context after the host applied Mut.
 	Rule2 *dsl.Rule `json:"rule2,omitempty"`
-	Mut   C03Mut    `json:"mut"`
+	// Rerun: the first rule itself is executed again after Mut (same compiled call sites).
+	Rerun bool   `json:"rerun,omitempty"`
+	Mut   C03Mut `json:"mut"`
 }
 
-func (m *C03Mut) apply(inj map[string]interface{}, l *obs.Log) {
+func (m *C03Mut) apply(inj map[string]interface{}, l *obs.Log, reinject func(name string, v interface{})) {
+	for i, f := range m.NewFuncs {
+		name := fmt.Sprintf("f%d", i)
+		fn := makeFunc(name, f, l)
+		inj[name] = fn
+		if reinject != nil {
+			reinject(name, fn)
+		}
+	}
 	o := inj["O"].(*C3Outer)
 	if m.SwapPIn {
 		o.PIn = &C3Inner{Scalars: m.NewPIn, log: l}
@@ -628,6 +641,10 @@ func (g *c03Gen) arg(k string) *dsl.Expr {
 		case 'u':
 			return g.value('u', "uint8")
 		default:
+			if pct(g.t, g.lbl("decimal"), 35) {
+				// decimals that are not exact in binary: rounded once, to the parameter's width
+				return dsl.Real([]float64{0.1, 2.75, -0.3, 1e-3, 3.14159, 100.01}[uni(g.t, g.lbl("dec"), 0, 5)])
+			}
 			return dsl.Real(float64(uni(g.t, g.lbl("af"), -64, 64)) / 4)
 		}
 	}
@@ -745,8 +762,32 @@ func init() {
 			if pct(t, "second_execution", 40) {
 				// the host changes the injected objects, then a second rule runs on the same context
 				c.Mut = C03Mut{SwapPIn: pct(t, "mut_swap", 70), NewPIn: smallScalars(t, "mut.pin."), SetO: pct(t, "mut_o", 50), NewO: smallScalars(t, "mut.o."), SetMap: pct(t, "mut_map", 50), MapVal: int64(uni(t, "mut_mapval", -50, 50))}
-				g2 := &c03Gen{t: t, w: &c.World, locals: map[byte][]string{}, nt: g.nt, nOut: 100}
-				c.Rule2 = &dsl.Rule{Name: "c03b", HasSal: true, Sal: 0, Body: &dsl.Block{Stmts: g2.stmts(), HasRet: true, Ret: dsl.Int(2)}}
+				if pct(t, "rerun_same_rule", 45) {
+					// the same rule (same compiled call sites) runs again; the functions were
+					// re-injected with other numeric parameter kinds of the same arity
+					c.Rerun = true
+					for _, f := range c.World.Funcs {
+						nf := C03Func{Results: f.Results}
+						for j, p := range f.Params {
+							np := p
+							if kindClass(p) != 's' && kindClass(p) != 'b' && pct(t, fmt.Sprintf("widen%d", j), 70) {
+								switch kindClass(p) {
+								case 'i':
+									np = []string{"int64", "int64", "float64", "int32"}[uni(t, fmt.Sprintf("wk%d", j), 0, 3)]
+								case 'u':
+									np = []string{"uint64", "uint64", "float64", "int64"}[uni(t, fmt.Sprintf("wk%d", j), 0, 3)]
+								default:
+									np = "float64"
+								}
+							}
+							nf.Params = append(nf.Params, np)
+						}
+						c.Mut.NewFuncs = append(c.Mut.NewFuncs, nf)
+					}
+				} else {
+					g2 := &c03Gen{t: t, w: &c.World, locals: map[byte][]string{}, nt: g.nt, nOut: 100}
+					c.Rule2 = &dsl.Rule{Name: "c03b", HasSal: true, Sal: 0, Body: &dsl.Block{Stmts: g2.stmts(), HasRet: true, Ret: dsl.Int(2)}}
+				}
 			}
 			return c
 		},
@@ -758,6 +799,10 @@ func init() {
 				x.Class("second-execution-after-host-mutation")
 			}
 			text, _ := dsl.PrintRules(rules, nil)
+			if c.Rerun {
+				rules = append(rules, c.Rule)
+				x.Class("same-rule-re-executed-after-re-injection")
+			}
 			el, rl := &obs.Log{}, &obs.Log{}
 			einj := c.World.inject(el)
 			rinj := c.World.inject(rl)
@@ -773,8 +818,8 @@ func init() {
 			}
 			for phase, r := range rules {
 				if phase == 1 {
-					c.Mut.apply(einj, el)
-					c.Mut.apply(rinj, rl)
+					c.Mut.apply(einj, el, func(name string, v interface{}) { rb.Dc.Add(name, v) })
+					c.Mut.apply(rinj, rl, nil)
 				}
 				env := ref.NewEnv(rinj, r)
 				want := env.Run()
